@@ -10,6 +10,7 @@ CONSTANTS
   RcKeys <- RcKeysQuick
   Retries = 1
   T0 = 1000000
+  StructKinds <- StructAll
 SPECIFICATION Spec
 INVARIANT HonestVerifies
 INVARIANT TamperRejected
@@ -20,4 +21,5 @@ INVARIANT RestoresOctets
 INVARIANT LayoutFollowsRfc
 INVARIANT UnsignedBound
 INVARIANT NoPanic
+INVARIANT AcceptedWasSigned
 CHECK_DEADLOCK FALSE
